@@ -19,3 +19,138 @@ Theorem C12_example_rejected_outside_write :
       {| o_ev := EEng false [[5; 3]%N]; o_L := ex_l1 ++ [([5; 3]%N, File 7%N)]; o_R := ex_r0 |} ] = inr (1%nat, G_CONFINED).
 Proof. exact ex_rejected_confined. Qed.
 Print Assumptions C12_example_rejected_outside_write.
+
+(* paths the application's translate function declines are left alone: no engine action of an accepted
+   trace addresses a path with a declined component *)
+Theorem C12_declined_left_alone : forall cfg l r tr m',
+  accept cfg l r tr = inl m' ->
+  forall pre x post s ts, tr = pre ++ x :: post -> o_ev x = EEng s ts ->
+    forall t n, In t ts -> In n t -> ~ In n (declined cfg).
+Proof. exact engine_declined_left_alone. Qed.
+Print Assumptions C12_declined_left_alone.
+
+Theorem C12_example_rejected_declined :
+  accept (ex_cfg None) ex_l0 ex_r0
+    [ {| o_ev := EUser false (Create [1; 3] 7)%N; o_L := ex_l1; o_R := ex_r0 |};
+      {| o_ev := EEng true [[2; 77]%N]; o_L := ex_l1; o_R := ex_r0 ++ [([2; 77]%N, Dir)] |} ] = inr (1%nat, G_DECLINED).
+Proof. exact ex_rejected_declined. Qed.
+Print Assumptions C12_example_rejected_declined.
+
+(* ------------------------------------------------------------------ moves across the root boundary
+   (one-sided runs: origin cfg = Some s0, users act on side s0; lemmas in MonitorBoundary.v) *)
+From CS Require Import TreeLookup TreeProofs MonitorBoundary.
+
+(* the entries strictly below a root (view) and all the others (outside) determine the tree: an engine
+   action that passes the ORIGIN and OUTSIDE guards leaves the whole origin-side tree as it was *)
+Theorem C12_view_and_outside_determine_tree : forall root a b,
+  NoDup (map fst a) ->
+  same_tree (view root a) (view root b) = true ->
+  same_tree (outside root a) (outside root b) = true ->
+  same_tree a b = true.
+Proof. exact tree_from_parts. Qed.
+Print Assumptions C12_view_and_outside_determine_tree.
+
+(* (1) after any prefix of an accepted one-sided run the origin side's tree is the initial tree with
+   the user's ABSOLUTE operations applied: no engine action ever changed it, inside or outside the root *)
+Theorem C12_origin_tree_is_history : forall cfg l r s0,
+  origin cfg = Some s0 -> wf (side_tree s0 l r) ->
+  forall pre ma, run_of cfg (init_state cfg l r) pre ma ->
+    same_tree (tree_of ma s0) (apply_ops (side_tree s0 l r) (abs_user_ops s0 pre)) = true.
+Proof. exact origin_tree_is_history. Qed.
+Print Assumptions C12_origin_tree_is_history.
+
+(* the same, about the observations themselves *)
+Theorem C12_origin_tree_observed : forall cfg l r tr m' s0,
+  origin cfg = Some s0 -> wf (side_tree s0 l r) ->
+  accept cfg l r tr = inl m' ->
+  forall pre x post, tr = pre ++ x :: post ->
+    same_tree (obs_tree x s0) (apply_ops (side_tree s0 l r) (abs_user_ops s0 (pre ++ [x]))) = true.
+Proof. exact origin_tree_observed. Qed.
+Print Assumptions C12_origin_tree_observed.
+
+(* (2) at every quiet report of an accepted one-sided run without conflicted names, the peer's view is
+   the root view of the origin tree after ALL user operations so far, renames with one end outside
+   the root included *)
+Theorem C12_boundary_moves_mirror : forall cfg l r tr m' s0,
+  origin cfg = Some s0 -> no_conflicted cfg = true -> wf (side_tree s0 l r) ->
+  accept cfg l r tr = inl m' ->
+  forall pre x post, tr = pre ++ x :: post -> o_ev x = EQuiet ->
+    same_tree (view (root_of cfg (negb s0)) (obs_tree x (negb s0)))
+              (view (root_of cfg s0) (apply_ops (side_tree s0 l r) (abs_user_ops s0 pre))) = true.
+Proof. exact boundary_moves_mirror. Qed.
+Print Assumptions C12_boundary_moves_mirror.
+
+(* applicability of a rename, in terms of the tree's own lookup *)
+Theorem C12_rename_applicable : forall t p q n,
+  lookup t p = Some n -> is_prefix p q = false -> parent_ok t q = true -> lookup t q = None ->
+  rename_ok t p q = true.
+Proof. exact rename_applicable. Qed.
+Print Assumptions C12_rename_applicable.
+
+(* (3a) moving a synchronised object out of the root is a deletion for the peer: when an applicable
+   Rename p q with p strictly inside the root and q not is the last user operation before a quiet
+   report, the peer's view at that report has nothing at or below p's root-relative path, and is the
+   origin's previous root view everywhere else *)
+Theorem C12_move_out_is_delete : forall cfg l r tr m' s0,
+  origin cfg = Some s0 -> no_conflicted cfg = true -> wf (side_tree s0 l r) ->
+  accept cfg l r tr = inl m' ->
+  forall pre u mid x post p q,
+    tr = pre ++ u :: mid ++ x :: post ->
+    o_ev u = EUser s0 (Rename p q) -> abs_user_ops s0 mid = [] -> o_ev x = EQuiet ->
+    rename_ok (apply_ops (side_tree s0 l r) (abs_user_ops s0 pre)) p q = true ->
+    forall rp, rel_path (root_of cfg s0) p = Some rp -> rel_path (root_of cfg s0) q = None ->
+      (forall s, lookup (view (root_of cfg (negb s0)) (obs_tree x (negb s0))) (rp ++ s) = None) /\
+      (forall k, is_prefix rp k = false ->
+         lookup (view (root_of cfg (negb s0)) (obs_tree x (negb s0))) k =
+         lookup (view (root_of cfg s0) (apply_ops (side_tree s0 l r) (abs_user_ops s0 pre))) k).
+Proof. exact move_out_is_delete. Qed.
+Print Assumptions C12_move_out_is_delete.
+
+(* (3b) moving an object into the root is a creation for the peer: the peer's view has at q's
+   root-relative path, and below it, exactly what the origin tree had at p and below before the move,
+   and is the origin's previous root view everywhere else *)
+Theorem C12_move_in_is_create : forall cfg l r tr m' s0,
+  origin cfg = Some s0 -> no_conflicted cfg = true -> wf (side_tree s0 l r) ->
+  accept cfg l r tr = inl m' ->
+  forall pre u mid x post p q,
+    tr = pre ++ u :: mid ++ x :: post ->
+    o_ev u = EUser s0 (Rename p q) -> abs_user_ops s0 mid = [] -> o_ev x = EQuiet ->
+    rename_ok (apply_ops (side_tree s0 l r) (abs_user_ops s0 pre)) p q = true ->
+    forall rq, rel_path (root_of cfg s0) p = None -> rel_path (root_of cfg s0) q = Some rq ->
+      (forall s, lookup (view (root_of cfg (negb s0)) (obs_tree x (negb s0))) (rq ++ s) =
+                 lookup (apply_ops (side_tree s0 l r) (abs_user_ops s0 pre)) (p ++ s)) /\
+      (forall k, is_prefix rq k = false ->
+         lookup (view (root_of cfg (negb s0)) (obs_tree x (negb s0))) k =
+         lookup (view (root_of cfg s0) (apply_ops (side_tree s0 l r) (abs_user_ops s0 pre))) k).
+Proof. exact move_in_is_create. Qed.
+Print Assumptions C12_move_in_is_create.
+
+(* (4) non-vacuity: an accepted one-sided trace with a move out (/1/3 -> /5/3) and a move in
+   (/5/4 with its file -> /1/4); its initial origin tree is well-formed; the corollaries instantiated *)
+Theorem C12_example_boundary_trace_accepted :
+  accepted exb_cfg exb_l0 exb_r0 exb_trace = true /\ wf (side_tree false exb_l0 exb_r0) /\
+  origin exb_cfg = Some false /\ no_conflicted exb_cfg = true /\
+  abs_user_ops false exb_trace = [Rename [1; 3] [5; 3]; Rename [5; 4] [1; 4]]%N.
+Proof. exact (conj exb_accepted (conj exb_wf (conj eq_refl (conj eq_refl eq_refl)))). Qed.
+Print Assumptions C12_example_boundary_trace_accepted.
+
+Theorem C12_example_move_out :
+  (forall s, lookup (view [2]%N exb_r1) ([3]%N ++ s) = None) /\
+  (forall k, is_prefix [3]%N k = false -> lookup (view [2]%N exb_r1) k = lookup (view [1]%N exb_l0) k).
+Proof. exact exb_move_out. Qed.
+Print Assumptions C12_example_move_out.
+
+Theorem C12_example_move_in :
+  (forall s, lookup (view [2]%N exb_r3) ([4]%N ++ s) = lookup exb_l1 ([5; 4]%N ++ s)) /\
+  (forall k, is_prefix [4]%N k = false -> lookup (view [2]%N exb_r3) k = lookup (view [1]%N exb_l1) k).
+Proof. exact exb_move_in. Qed.
+Print Assumptions C12_example_move_in.
+
+(* leaving the moved-out file on the peer is rejected at the quiet report (CONVERGE); an engine action
+   that undoes the move on the origin side, outside its root, is rejected (OUTSIDE) *)
+Theorem C12_example_rejected_move_out_not_deleted :
+  accept exb_cfg exb_l0 exb_r0
+    [ exb_u1; {| o_ev := EStep; o_L := exb_l1; o_R := exb_r0 |}; {| o_ev := EQuiet; o_L := exb_l1; o_R := exb_r0 |} ]
+  = inr (2%nat, G_CONVERGE).
+Proof. exact exb_rejected_not_deleted. Qed.
+Print Assumptions C12_example_rejected_move_out_not_deleted.
